@@ -111,8 +111,8 @@ claim(
     "re-computation with re-valued inputs are executed on the Lean machine for capacities 1,2,3,default. Universal over the "
     "ported lowering pass: `generateIr_compute_noAlloc` and `generateIr_compute_structure_untouched(_peep)` - the (optimised) compute "
     "kernel of EVERY problem neither allocates nor stores into a pos/crd array or a tensor struct; the same certificates are "
-    "evaluated on the IR the real compiler emitted. End to end for three classes (sparse vector copy/scale, dense element-wise kernels of every "
-    "order, all dense single-term contractions): `sparse1_/denseN_/denseTerm_assemble_compute_eq_evaluate`, `sparse1_compute_preserves_structure`, "
+    "evaluated on the IR the real compiler emitted. End to end for seven classes (sparse vector copy/scale, dense element-wise kernels of every "
+    "order, all dense single-term contractions, sparse product and sum, CSR copy, two-level compressed copy): `<class>_assemble_compute_eq_evaluate`, `sparse1_compute_preserves_structure`, "
     "`*_compute_rerun`.",
     "Lean 4 frame theorem + per-kernel certificate + histories executed on the Lean IR machine",
     "DESIGN.md section 6 C04", MACHINE,
